@@ -87,7 +87,7 @@ class Ctx:
 class Check:
     pid = "C00"
     level = "exploration"
-    variants = ["ossl-asan"]
+    variants = ["ossl-asan"]      # add "ref" when the check needs the reference-crypto worker
     rule = ""
     assumptions = []
     essential_labels = {}      # label -> minimum count (quick tier); below => vacuous (exit 2)
@@ -114,7 +114,7 @@ class Check:
 # -------------------------------------------------------------------------------------------------
 def build(variants):
     cmd = [sys.executable if sys.executable and "python" in os.path.basename(sys.executable) else "python3",
-           os.path.join(VERIF, "build", "gen.py"), "--quiet"] + list(variants) + ["ref"]
+           os.path.join(VERIF, "build", "gen.py"), "--quiet"] + list(variants)
     p = subprocess.run(cmd, stdout=subprocess.PIPE, stderr=subprocess.STDOUT, text=True)
     if p.returncode != 0:
         sys.stdout.write(p.stdout[-6000:])
